@@ -800,6 +800,8 @@ class C01(Property):
                    "runs": [{"cfg": [1, 0, 0], "how": "inproc", "sched": 0}, {"cfg": [2, 0, 0], "how": "sim", "sched": 5}, {"cfg": [4, 3, 2], "how": "sim", "sched": 6}], "rerun": True})
         # F1: Cache in front of a source that raises while being read (recorded finding / fixes/C01-cache-failed-read.diff)
         cs.append(cache_defect_case())
+        # fixed finding F2 (e4fe683): logged environment behind shuffle(n=2); the peek of the parameter task must not change later reads
+        cs.append({"envs": [{"branches": [[["shuffle", 2]]], "log_seed": 3, "logged": True, "n": 8, "na": 3, "prefix": [], "seed": 5, "src": "linear"}], "kind": "builtin", "lrns": [{"tag": 0, "type": "kwargs"}, {"tag": 1, "type": "kwargs"}, {"eps": 0.05, "seed": 4, "type": "eps"}], "mode": "product", "pe": [1], "pl": [2], "pv": [0], "runs": [{"cfg": [1, 0, 0], "how": "inproc", "sched": 0}, {"cfg": [2, 0, 0], "how": "sim", "sched": 296675}], "seed": 2, "single_eval": True, "vals": [{"eval": "ips", "learn": "off", "record": ["reward"], "seed": 2, "type": "seq"}]})
         # built-in components
         cs.append({"kind": "builtin", "seed": 1, "envs": [{"src": "linear", "n": 12, "na": 3, "seed": 2, "prefix": [["chunk"]], "branches": [[["shuffle", 2]]]}],
                    "lrns": [{"type": "eps", "eps": 0.1, "seed": 1}, {"type": "pmf", "tag": 1}, {"type": "kwargs", "tag": 2}],
